@@ -21,7 +21,7 @@ use truc::record::definition::convert::convert_record_definition;
 use truc::record::definition::{
     DatumDefinition, DatumId, NativeDatumDetails, RecordDefinition, RecordVariantId,
 };
-use truc::record::type_resolver::{DynamicTypeInfo, StaticTypeResolver, TypeInfo};
+use truc::record::type_resolver::{DynamicTypeInfo, StaticTypeResolver, TypeInfo, TypeResolver};
 use verif_harness::{catch, silence_panics, Rng};
 
 const UNSET: usize = usize::MAX;
@@ -117,8 +117,22 @@ fn make_resolver(which: usize) -> StaticTypeResolver {
     StaticTypeResolver::from(m)
 }
 
+/// the resolver handed to the native builder: the table itself, or the table behind a reference
+/// (`NativeRecordDefinitionBuilder::new(&resolver)`, the way the example build scripts pass it), i.e. through
+/// the blanket `impl TypeResolver for &R`
+struct AnyRes { inner: StaticTypeResolver, by_ref: bool }
+
+impl TypeResolver for AnyRes {
+    fn type_info<T>(&self) -> TypeInfo {
+        if self.by_ref { <&StaticTypeResolver as TypeResolver>::type_info::<T>(&&self.inner) } else { self.inner.type_info::<T>() }
+    }
+    fn dynamic_type_info(&self, type_name: &str) -> DynamicTypeInfo {
+        if self.by_ref { <&StaticTypeResolver as TypeResolver>::dynamic_type_info(&&self.inner, type_name) } else { self.inner.dynamic_type_info(type_name) }
+    }
+}
+
 enum Sut {
-    Native(NativeRecordDefinitionBuilder<StaticTypeResolver>),
+    Native(NativeRecordDefinitionBuilder<AnyRes>),
     Generic(GenericRecordDefinitionBuilder<NativeDatumDetails>),
 }
 
@@ -530,13 +544,13 @@ struct Stats {
 }
 
 impl<'a> Session<'a> {
-    fn new(out: &'a mut Out, stats: &'a mut Stats, hist: usize, kind: &str, table: usize, generic_strats: bool) -> Self {
+    fn new(out: &'a mut Out, stats: &'a mut Stats, hist: usize, kind: &str, table: usize, generic_strats: bool, by_ref: bool) -> Self {
         let sut = if kind == "native" {
-            Sut::Native(NativeRecordDefinitionBuilder::new(make_resolver(table)))
+            Sut::Native(NativeRecordDefinitionBuilder::new(AnyRes { inner: make_resolver(table), by_ref }))
         } else {
             Sut::Generic(GenericRecordDefinitionBuilder::new())
         };
-        out.emit(&format!("reset {} {} {}", kind, table, if generic_strats { "g" } else { "n" }), "--");
+        out.emit(&format!("reset {} {} {} {}", kind, table, if generic_strats { "g" } else { "n" }, if by_ref { "ref" } else { "val" }), "--");
         let mut ora = Oracle::default();
         ora.native_layout = !generic_strats;
         stats.histories += 1;
@@ -922,7 +936,8 @@ fn random_history(rng: &mut Rng, out: &mut Out, stats: &mut Stats, hist: usize) 
     let zst_heavy = rng.chance(1, 3);
     let fixed = if rng.chance(1, 2) { Some(*rng.pick(&NATIVE)) } else { None };
     let nvar = 1 + rng.below(8);
-    let mut s = Session::new(out, stats, hist, if native { "native" } else { "generic" }, table, generic_strats);
+    let by_ref = rng.chance(1, 3);
+    let mut s = Session::new(out, stats, hist, if native { "native" } else { "generic" }, table, generic_strats, by_ref);
     let mut live: Vec<usize> = vec![];
     let mut stale: Vec<usize> = vec![];
     let mut pending: Vec<usize> = vec![];
@@ -1057,7 +1072,7 @@ fn exhaustive(thorough: bool, shard: usize, nshards: usize, out: &mut Out, stats
                                     idx += 1;
                                     if !me { continue; }
                                     ran += 1;
-                                    let mut s = Session::new(out, stats, ran - 1, "native", 0, false);
+                                    let mut s = Session::new(out, stats, ran - 1, "native", 0, false, ran % 2 == 0);
                                     let mut n = 0;
                                     let mk = |sh: &(usize, usize), n: &mut usize| { *n += 1; AddReq { name: format!("f{}", n), ty: format!("T{}x{}", sh.0, sh.1), size: sh.0, align: sh.1, uninit: false, entry: "override" } };
                                     for sh in a1 { let r = mk(sh, &mut n); s.add(&r); }
@@ -1100,12 +1115,13 @@ fn file_histories(path: &str, out: &mut Out, stats: &mut Stats) {
             let kind = toks.get(1).cloned().unwrap_or("native");
             let table = toks.get(2).and_then(|t| t.parse().ok()).unwrap_or(0);
             let gs = toks.get(3).map(|t| *t == "g").unwrap_or(false);
-            sess = Some(Session::new(unsafe { &mut *out_ptr }, unsafe { &mut *stats_ptr }, hist, kind, table, gs));
+            let by_ref = toks.get(4).map(|t| *t == "ref").unwrap_or(false);
+            sess = Some(Session::new(unsafe { &mut *out_ptr }, unsafe { &mut *stats_ptr }, hist, kind, table, gs, by_ref));
             hist += 1;
             continue;
         }
         if sess.is_none() {
-            sess = Some(Session::new(unsafe { &mut *out_ptr }, unsafe { &mut *stats_ptr }, hist, "native", 0, false));
+            sess = Some(Session::new(unsafe { &mut *out_ptr }, unsafe { &mut *stats_ptr }, hist, "native", 0, false, false));
             hist += 1;
         }
         let s = sess.as_mut().unwrap();
